@@ -274,6 +274,25 @@ func (c *Ctx) frameObligations(st, entry *State, ri int) {
 					continue
 				}
 			}
+			// objects owned by a monitor ("guards mu: ..., T.*")
+			owned := false
+			for _, ts := range c.e.typeSpecs {
+				for _, fs := range ts.Guards {
+					for _, g := range fs {
+						tn, gf, ok := strings.Cut(g, ".")
+						if !ok || (gf != "*" && gf != fld) {
+							continue
+						}
+						pkg, _, _ := strings.Cut(ts.Key, ".")
+						if ss == "St_"+pkg+"_"+tn || strings.HasPrefix(ss, "St_"+pkg+"_"+tn+"_") {
+							owned = true
+						}
+					}
+				}
+			}
+			if owned && len(c.frameRefs[key]) == 0 {
+				continue
+			}
 		}
 		refs := append([]string(nil), c.frameRefs[key]...)
 		// objects allocated by this function are outside the caller's view
